@@ -9,6 +9,14 @@ CHECKS = {
    text="Every drop mask over the first 4 (quick) / 6 (thorough) datagrams of each direction, for 13 handshake variants, is executed against the real client and server under a virtual clock; thorough adds every 5-action mask (deliver/drop/dup/swap/hold-3) over the first 3 datagrams per direction; then seeded samples with random drop/dup/hold rates, latencies, MTUs and timer settings. Oracle: both HandshakeContext calls return nil within 8 x 61 s of virtual time after the last fault. The enumerated part is exhaustive for its bound; beyond it the result is sampling evidence.",
    note="Trusts: synctest's fake clock and quiescence detection; the cooperative-lock rewrite (mutual exclusion preserved, fairness not); the in-memory socket. A stall is judged only after a bound far above any legitimate retransmission schedule.",
    technique="deterministic simulation: exhaustive fault-mask enumeration + seeded fault sampling over real endpoints on a simulated network and clock"),
+ "C06": dict(level="fault_enumeration", design="§5 C06",
+   text="Records of an established session are captured and presented to the real receiver in every arrival sequence (with repetition) of length 6 over 4 records (quick) / 7 over 5 (thorough) for replay windows 1, 2, 3 and 64, then in sampled long sessions with displacements around the window edge and windows 1..256, across 13 suite/CID/version configurations. A 20-line reference window model decides, arrival by arrival, must-deliver / must-not-deliver / may-deliver.",
+   note="Trusts the capture-and-inject harness (each Write yields exactly one datagram, checked) and the model's reading of the statement: fewer than W behind the newest accepted record => exactly once; older => at most once.",
+   technique="deterministic simulation: exhaustive arrival-sequence enumeration + seeded reordering/duplication against a reference window model"),
+ "C09": dict(level="exploration", design="§5 C09",
+   text="Seeded exploration of goroutine interleavings (yield points at every lock, select and channel send of the instrumented library, parked and released by a seeded controller) of 1-4 concurrent writers per side, handshake retransmissions under loss, injected datagrams provoking alerts, and Close racing writes, over 13 suite/CID/version configurations; a wire monitor independent of the library's codecs checks every emitted record header. DTLS 1.3 records are not decided by this check (encrypted sequence numbers).",
+   note="Sampling evidence only. Cooperative locks admit barging, a superset of real mutex schedules. DTLS 1.3 sequence numbers are not visible on the wire and are not covered.",
+   technique="deterministic simulation: seeded schedule exploration + fault injection with an independent wire monitor"),
 }
 
 NOT_YET = {}
